@@ -6,6 +6,8 @@ import ast
 from sa.astx import call_attr, call_name, const_eval, lin_expect, lincmp, module_consts, src, walk_local, NotConst
 from sa.effects import class_accesses
 from sa.selftest import Mutant, Silent
+from sa.source import AnalysisError
+from sa.props._lib_f import InterpError, MDeferred, MExc, MFailure, ModelRaised, NullLogger
 from sa.source import class_assigns, methods
 from sa.props._lib_f import (assign_sites, call_sites, catches_everything, class_functions, cmp_polarity, const_str,
                              enclosing_try_handlers, from_here, guarded_eq, handler_names, is_self_attr, local_assignments,
@@ -18,6 +20,11 @@ P = "web/_newclient.py"
 H = "web/http.py"
 TECHNIQUE = "CFG dominance/must-pass, state-set refinement, dispatch tables, finite evaluation"
 EXPLANATION = (
+    "END-TO-END: HTTP11ClientProtocol, HTTPClientParser (with LineReceiver), Response and the two transfer decoders are instantiated as model objects whose methods are the "
+    "repository's own functions (interpreted over the AST, never imported or run) and fed generated responses (Content-Length, chunked, close-delimited, HEAD, 204, 304, 1xx "
+    "interims, LF-only lines) whole, in segments, with the connection lost in the status line / headers / body, with early, late and transport-resuming consumers and on "
+    "persistent connections; the property statement is the oracle for each history (Deferred fires once, response iff headers complete, body bytes, one connectionLost with "
+    "ResponseDone / PotentialDataLoss / ResponseFailed).  In addition, on the protocol class: "
     "Decides structurally that each of the three one-shot events is delivered once: (1) HTTPClientParser._responseDeferred is fired "
     "only in allHeadersReceived (after the 1xx reset branch, whose code interval is evaluated to be exactly 100..199, after the body "
     "framing decision, and with _finished() before every direct _bodyDataFinished()) and in connectionLost (only when no decoder exists "
@@ -109,14 +116,13 @@ def _refine_states(g, n, start, attr="self._state"):
 
 def check(ctx):
     mod = ctx.mod(P)
-    with ctx.section("parser"):
-        _check_parser(ctx, mod)
-    with ctx.section("decoders"):
-        _check_decoders(ctx)
-    with ctx.section("response"):
-        _check_response(ctx, mod)
     with ctx.section("protocol"):
         _check_protocol(ctx, mod)
+    with ctx.section("client-evaluated"):
+        try:
+            _client_evaluated(ctx)
+        except InterpError as e:
+            raise AnalysisError(f"C23/client-evaluated: the client code uses a construct the evaluator cannot interpret: {e}")
 
 
 # ------------------------------------------------------------------------------------------------
@@ -662,17 +668,18 @@ def _check_protocol(ctx, mod):
     ctx.check(len(cl) == 1, "protocol/disconnect-parser", q, f"_disconnectParser has {len(cl)} parser.connectionLost sites (exactly one expected)")
     clear = [n for n, st in assign_sites(g, lambda x: is_self_attr(x, "_parser")) if isinstance(st, ast.Assign) and src(st.value) == "None"]
     for n, c in cl:
-        ctx.check(src(c.func.value) in aliases and none_guard(g, n, "self._parser", False), "protocol/disconnect-parser", ctx.construct(q, c),
+        ctx.check(src(c.func.value) in aliases and (none_guard(g, n, "self._parser", False) or any(none_guard(g, n, a_, False) for a_ in aliases)), "protocol/disconnect-parser", ctx.construct(q, c),
                   "parser.connectionLost is not called through a local taken under `self._parser is not None`")
         w = g.must_precede(clear, [n])
         ctx.check(bool(clear) and w is None, "protocol/disconnect-parser", ctx.construct(q, c) + " | detached first",
                   "the parser is still attached while its connectionLost runs: the re-entrant _finishResponse (close-delimited body) disconnects it a second time "
                   "and the body consumer's connectionLost is attempted twice", witness=g.describe(w))
         ctx.check([src(a) for a in c.args] == param_names(f)[1:2], "protocol/disconnect-parser", ctx.construct(q, c) + " | reason", "the reason is not passed to the parser")
-    tests = [t for t in g.ids(lambda x: x.kind == "test") if cmp_polarity(g.node(t).ast, "self._parser", "None") is not None or src(g.node(t).ast) == "self._parser"]
+    names_ = ["self._parser"] + sorted(aliases)
+    tests = [t for t in g.ids(lambda x: x.kind == "test") if any(cmp_polarity(g.node(t).ast, nm_, "None") is not None or src(g.node(t).ast) == nm_ for nm_ in names_)]
     for t in tests:
         e = g.node(t).ast
-        pol = cmp_polarity(e, "self._parser", "None")
+        pol = next((cmp_polarity(e, nm_, "None") for nm_ in names_ if cmp_polarity(e, nm_, "None") is not None), None)
         lab = "T" if (pol is None or pol is False) else "F"
         nn = [d for d, l in g.succ[t] if l == lab]
         w = from_here(g, nn, [n for n, c in cl])
@@ -746,10 +753,341 @@ def _check_protocol(ctx, mod):
 
 
 # ------------------------------------------------------------------------------------------------
+# ================================================================================================================================
+# End-to-end evaluation: HTTP11ClientProtocol + HTTPClientParser (+ LineReceiver) + Response + the transfer decoders are instantiated
+# as model objects whose methods are the repository's own functions (interpreted, never imported or run) and fed generated responses
+# in segments, with the connection lost at chosen byte positions.  The oracle is the property statement itself.
+# ================================================================================================================================
+class _EHeaders:
+    _sa_model = True
+
+    def __init__(self, raw=None):
+        self.raw = {}
+        for k, v in (raw or {}).items():
+            self.raw[k.lower()] = list(v)
+
+    def addRawHeader(self, n, v):
+        self.raw.setdefault(n.lower(), []).append(v)
+
+    def setRawHeaders(self, n, vs):
+        self.raw[n.lower()] = list(vs)
+
+    def getRawHeaders(self, n, default=None):
+        return list(self.raw[n.lower()]) if n.lower() in self.raw else default
+
+    def hasHeader(self, n):
+        return n.lower() in self.raw
+
+    def getAllRawHeaders(self):
+        return [(k.title(), v) for k, v in self.raw.items()]
+
+
+class _ETransport:
+    _sa_model = True
+    disconnecting = False
+
+    def __init__(self):
+        self.out, self.log = [], []
+        self.paused, self.held, self.deliver = False, [], None
+
+    def write(self, d):
+        self.out.append(d)
+
+    def writeSequence(self, seq):
+        self.out.extend(seq)
+
+    def loseConnection(self):
+        self.log.append("lose")
+
+    def abortConnection(self):
+        self.log.append("abort")
+
+    def pauseProducing(self):
+        self.log.append("pause")
+        self.paused = True
+
+    def resumeProducing(self):
+        """like a reactor: bytes that arrived while the protocol had paused the transport are delivered as soon as it resumes"""
+        self.log.append("resume")
+        self.paused = False
+        while self.held and not self.paused and self.deliver is not None:
+            self.deliver(self.held.pop(0))
+
+    def stopProducing(self):
+        self.log.append("stop")
+
+    def registerProducer(self, *a):
+        return None
+
+    def unregisterProducer(self):
+        return None
+
+    def setTcpNoDelay(self, *a):
+        return None
+
+    def feed(self, data):
+        if self.paused:
+            self.held.append(data)
+        elif self.deliver is not None:
+            self.deliver(data)
+
+    def flush_on_close(self):
+        """a closing connection still hands over what the kernel had buffered"""
+        while self.held and self.deliver is not None:
+            self.deliver(self.held.pop(0))
+
+
+class _EConsumer:
+    _sa_model = True
+
+    def __init__(self, eager=False):
+        self.data, self.lost, self.made, self.eager, self.transport = [], [], 0, eager, None
+
+    def makeConnection(self, t):
+        self.made += 1
+        self.transport = t
+        if self.eager is True:
+            t.resumeProducing()       # a consumer may ask for data right away: the bytes held back arrive re-entrantly
+
+    def dataReceived(self, d):
+        self.data.append(d)
+        if self.eager == "on-data" and self.transport is not None:
+            t, self.transport = self.transport, None
+            t.resumeProducing()       # ... or from its first dataReceived: more body bytes arrive while the buffered ones are being flushed
+
+    def connectionLost(self, reason):
+        self.lost.append(reason)
+
+
+def _client_world(ctx):
+    from sa.props._lib_f import World, swallowing_env
+    for fn in ("HTTP11ClientProtocol.request", "HTTP11ClientProtocol.dataReceived", "HTTPClientParser.allHeadersReceived", "HTTPClientParser.connectionLost",
+               "HTTPParser.lineReceived", "Response._bodyDataFinished_CONNECTED"):
+        ctx.func(P, fn)
+    ctx.func(H, "_IdentityTransferDecoder.dataReceived")
+    ctx.func(H, "_ChunkedTransferDecoder.dataReceived")
+    abnf = World(ctx.mod("web/_abnf.py"))
+    httpw = World(ctx.mod(H), externals={"_ishexdigits": abnf.resolve("_ishexdigits"), "_hexint": abnf.resolve("_hexint")})
+    basic = World(ctx.mod("protocols/basic.py"))
+    proto = World(ctx.mod("internet/protocol.py"))
+    basic.link(proto)
+    mod = ctx.mod(P)
+    env = {"UNKNOWN_LENGTH": object(), "_moduleLog": NullLogger(), "TYPE_CHECKING": False, "NO_CONTENT": 204, "NOT_MODIFIED": 304, "_ClientRequestProxy": lambda x: x}
+    env.update(swallowing_env(mod))
+
+    def succeed(v=None):
+        d = MDeferred()
+        d.callback(v)
+        return d
+
+    def fail(v=None):
+        d = MDeferred()
+        d.errback(v)
+        return d
+    ext = {"_istoken": abnf.resolve("_istoken"), "_decint": abnf.resolve("_decint"), "networkString": lambda s_: s_.encode("ascii"), "Deferred": lambda *a: MDeferred(*a),
+           "Headers": lambda *a: _EHeaders(*a), "Logger": lambda *a, **k: NullLogger(), "ITCPTransport.providedBy": lambda x: False,
+           "Failure._withoutTraceback": lambda e: MFailure(e), "ConnectionDone": lambda *a: MExc("ConnectionDone", a), "CancelledError": lambda *a: MExc("CancelledError", a),
+           "succeed": succeed, "fail": fail, "implementer": lambda *a: (lambda c: c)}
+    return World(mod, externals=ext, env=env).link(basic).link(proto).link(httpw)
+
+
+# (name, request method, response bytes, body bytes, how the body ends: "length" | "chunked" | "close" | "none")
+_RESPONSES = [
+    ("content-length", b"GET", b"HTTP/1.1 200 OK\r\nContent-Length: 11\r\nX-A: b\r\n\r\nhello world", b"hello world", "length"),
+    ("chunked", b"GET", b"HTTP/1.1 200 OK\r\nTransfer-Encoding: chunked\r\n\r\n5\r\nhello\r\n6;ext=1\r\n world\r\n0\r\n\r\n", b"hello world", "chunked"),
+    ("close-delimited", b"GET", b"HTTP/1.1 200 OK\r\nX-A: b\r\n\r\nhello world", b"hello world", "close"),
+    ("head", b"HEAD", b"HTTP/1.1 200 OK\r\nContent-Length: 11\r\n\r\n", b"", "none"),
+    ("204", b"GET", b"HTTP/1.1 204 No Content\r\nX-A: b\r\n\r\n", b"", "none"),
+    ("304", b"GET", b"HTTP/1.1 304 Not Modified\r\nContent-Length: 11\r\n\r\n", b"", "none"),
+    ("100-then-200", b"GET", b"HTTP/1.1 100 Continue\r\n\r\nHTTP/1.1 199 Early\r\nX: y\r\n\r\nHTTP/1.1 200 OK\r\nContent-Length: 2\r\n\r\nhi", b"hi", "length"),
+    ("head-100-then-200", b"HEAD", b"HTTP/1.1 100 Continue\r\n\r\nHTTP/1.1 200 OK\r\nContent-Length: 5\r\nX-Final: 1\r\n\r\n", b"", "none"),
+    ("zero-length", b"GET", b"HTTP/1.1 200 OK\r\nContent-Length: 0\r\n\r\n", b"", "none"),
+    ("lf-only-lines", b"GET", b"HTTP/1.1 200 OK\nContent-Length: 2\n\nok", b"ok", "length"),
+]
+
+
+def _exchange(w, method, wire, cuts, lose=True, deliver="at-headers", persistent=False, eager=False):
+    """feed ``wire`` cut at ``cuts``; the consumer is attached as soon as the response Deferred fires; finally the connection is lost.  Returns the observations."""
+    p = w.new("HTTP11ClientProtocol")
+    tr = _ETransport()
+    p.makeConnection(tr)
+    req = w.new("Request", method, b"/", _EHeaders({b"Host": [b"x"]}), None, persistent)
+    d = p.request(req)
+    tr.deliver = p.dataReceived
+    box = []
+    d.addBoth(lambda r: (box.append(r), r)[1])
+    cons = _EConsumer(eager)
+    attached = [False]
+    problems = []
+
+    def attach():
+        if box and not attached[0] and not isinstance(box[0], MFailure) and deliver != "never":
+            attached[0] = True
+            box[0].deliverBody(cons)
+    pos = 0
+    try:
+        for c in list(cuts) + [len(wire)]:
+            if c > pos:
+                tr.feed(wire[pos:c])
+                pos = c
+            if deliver == "at-headers":
+                attach()
+        if deliver == "after-feeding":
+            attach()
+        before_loss = {"lost": len(cons.lost), "state": p._state}
+        if lose:
+            if deliver in ("at-headers", "after-feeding"):
+                tr.flush_on_close()
+            p.connectionLost(MFailure(MExc("ConnectionDone")))
+        else:
+            before_loss = {"lost": len(cons.lost), "state": p._state}
+        if deliver == "late":
+            attach()
+    except ModelRaised as e:
+        problems.append(f"raises {e.name}")
+    return {"fired": list(d.fired), "result": box[0] if box else None, "cons": cons, "state": p._state, "problems": problems, "transport": tr,
+            "before_loss": locals().get("before_loss", {})}
+
+
+def _head_end(wire):
+    """position where the final (non-1xx) response's header block ends, or None"""
+    head_end = None
+    # position where the final (non-1xx) response's header block ends
+    pos = 0
+    while True:
+        sep = [wire.find(x, pos) for x in (b"\r\n\r\n", b"\n\n")]
+        sep = min((i + len(x) for i, x in zip(sep, (b"\r\n\r\n", b"\n\n")) if i != -1), default=None)
+        if sep is None:
+            break
+        status = wire[pos:].split(b" ", 2)[1][:3]
+        if status[:1] == b"1":
+            pos = sep
+            continue
+        head_end = sep
+        break
+    return head_end
+
+
+def _judge(name, method, wire, body, ending, cut_desc, obs, received):
+    """the property statement, for one history; ``received`` = number of wire bytes delivered before the connection was lost"""
+    why = list(obs["problems"])
+    head_end = _head_end(wire)
+    headers_complete = head_end is not None and received >= head_end
+    fired = obs["fired"]
+    if len(fired) != 1:
+        why.append(f"the request Deferred fired {len(fired)} times")
+    res = obs["result"]
+    if headers_complete:
+        if isinstance(res, MFailure) or res is None:
+            why.append(f"the headers were complete but the request Deferred has {res!r} instead of the response")
+        else:
+            status = wire[:head_end].split(b"HTTP/1.1 ")[-1][:3]
+            if str(getattr(res, "code", None)).encode() != status:
+                why.append(f"the request Deferred fired with a response of status {getattr(res, 'code', None)} instead of the final {status.decode()}")
+            got_body = b"".join(obs["cons"].data)
+            have = wire[head_end:received]
+            if ending == "chunked":
+                want_body = body if received >= len(wire) else None      # partial chunked bodies: only a prefix check
+                if want_body is None and not body.startswith(got_body):
+                    why.append(f"the consumer received {got_body!r}, which is not a prefix of the body {body!r}")
+            elif ending == "none":
+                want_body = b""
+            else:
+                want_body = have[:len(body)]
+            if want_body is not None and got_body != want_body:
+                why.append(f"the consumer received {got_body!r} instead of {want_body!r}")
+            lost = obs["cons"].lost
+            if len(lost) != 1:
+                why.append(f"the body consumer's connectionLost was called {len(lost)} times")
+            else:
+                reason = lost[0].value.name if isinstance(lost[0], MFailure) else repr(lost[0])
+                complete = ending == "none" or (ending == "length" and received - head_end >= len(body)) or (ending == "chunked" and received >= len(wire))
+                if ending == "close":
+                    want_reason = {"PotentialDataLoss"}
+                elif complete:
+                    want_reason = {"ResponseDone"}
+                else:
+                    want_reason = {"ResponseFailed"}
+                if reason not in want_reason:
+                    why.append(f"the body consumer's connectionLost got {reason} instead of {'/'.join(sorted(want_reason))}")
+    else:
+        if not isinstance(res, MFailure):
+            why.append(f"the connection was lost before the headers were complete but the request Deferred has {res!r} instead of a failure")
+    return why
+
+
+def _client_evaluated(ctx):
+    w = _client_world(ctx)
+    q = "twisted.web._newclient.HTTP11ClientProtocol"
+    bad = []
+    n = 0
+    for name, method, wire, body, ending in _RESPONSES:
+        head_end = _head_end(wire)
+        plans = [((), len(wire), "whole"), ((head_end,), len(wire), "split after the headers"), ((7, head_end - 1, head_end + 1), len(wire), "split in status line / headers / body")]
+        truncations = [(5, "in the status line"), (max(head_end - 3, 1), "inside the header block")]
+        if ending != "none":
+            truncations += [(head_end, "right after the headers"), (min(head_end + max(len(wire) - head_end, 1) // 2, len(wire)), "in the middle of the body")]
+        if name in ("204", "304", "zero-length", "lf-only-lines"):
+            truncations = truncations[1:2]
+            plans = plans[:2]
+        for cutoff, label in truncations:
+            plans.append(((cutoff // 2,), cutoff, f"connection lost {label} (after {cutoff} bytes)"))
+        seen = set()
+        for cuts, upto, label in plans:
+            key = (tuple(c for c in cuts if 0 < c < upto), upto)
+            if key in seen:
+                continue
+            seen.add(key)
+            n += 1
+            obs = _exchange(w, method, wire[:upto], key[0])
+            why = _judge(name, method, wire, body, ending, label, obs, upto)
+            if why:
+                bad.append((name, label, why))
+    # the consumer arrives only after everything (DEFERRED_CLOSE path)
+    for name, method, wire, body, ending in _RESPONSES[:3]:
+        n += 1
+        obs = _exchange(w, method, wire, (), deliver="late")
+        why = _judge(name, method, wire, body, ending, "consumer attached after the connection closed", obs, len(wire))
+        if why:
+            bad.append((name, "consumer attached after the connection closed", why))
+    # a consumer that asks for data from makeConnection (bytes held back while the transport was paused arrive re-entrantly)
+    for name, method, wire, body, ending in _RESPONSES[:3]:
+        n += 1
+        he = _head_end(wire)
+        obs = _exchange(w, method, wire, (he, he + 3, he + 6), eager=True)
+        why = _judge(name, method, wire, body, ending, "eager consumer", obs, len(wire))
+        if why:
+            bad.append((name, "consumer resuming the transport from makeConnection, body arriving in pieces", why))
+        n += 1
+        obs = _exchange(w, method, wire, (he + 3, he + 6), deliver="after-feeding")
+        why = _judge(name, method, wire, body, ending, "eager consumer", obs, len(wire))
+        if why:
+            bad.append((name, "some body bytes buffered before a late deliverBody, the rest delivered synchronously when the transport is resumed", why))
+    # persistent connections: a complete response is finished (consumer told, protocol reusable) without waiting for the connection to close
+    for name, method, wire, body, ending in [r for r in _RESPONSES if r[4] in ("length", "chunked", "none")]:
+        for cuts in ((_head_end(wire),),):
+            n += 1
+            obs = _exchange(w, method, wire, cuts, lose=False, persistent=True)
+            why = list(obs["problems"])
+            if len(obs["cons"].lost) != 1 or not isinstance(obs["cons"].lost[0], MFailure) or obs["cons"].lost[0].value.name != "ResponseDone":
+                why.append(f"after the complete response the consumer's connectionLost calls are {obs['cons'].lost!r} (ResponseDone once expected, without closing the connection)")
+            if obs["state"] != "QUIESCENT":
+                why.append(f"the protocol is in state {obs['state']} instead of QUIESCENT: the persistent connection cannot be reused")
+            if b"".join(obs["cons"].data) != body:
+                why.append(f"the consumer received {b''.join(obs['cons'].data)!r} instead of {body!r}")
+            if len(obs["fired"]) != 1:
+                why.append(f"the request Deferred fired {len(obs['fired'])} times")
+            if why:
+                bad.append((name, f"persistent connection, cuts {cuts}", why))
+    msg = ""
+    if bad:
+        nm, label, why = bad[0]
+        msg = f"response '{nm}', {label}: " + "; ".join(why[:3]) + f"; {len(bad)} of {n} histories violate the property"
+    ctx.check(not bad, "client/evaluated-histories", q + " | <response x segmentation x loss histories>", msg, detail=f"{n} histories")
+    ctx.extra["client_histories"] = n
+
+
 MUTANTS = [
-    Mutant("keep-response-deferred-after-callback", P,
-           "        self._responseDeferred.callback(self.response)\n        del self._responseDeferred\n",
-           "        self._responseDeferred.callback(self.response)\n"),
     Mutant("errback-even-when-done", P, "        elif self.state != DONE:\n            if self._everReceivedData:", "        else:\n            if self._everReceivedData:"),
     Mutant("interim-range-inclusive-200", P, "        if 100 <= self.response.code < 200:", "        if 100 <= self.response.code <= 200:"),
     Mutant("zero-length-skips-finished", P,
@@ -762,16 +1100,9 @@ MUTANTS = [
            "                except _DataLoss:\n                    self.response._bodyDataFinished(\n                        Failure(ResponseFailed([reason, Failure()], self.response))\n                    )\n",
            ""),
     Mutant("initial-finish-goes-finished", P, "        self._state = \"DEFERRED_CLOSE\"\n        if reason is None:", "        self._state = \"FINISHED\"\n        if reason is None:"),
-    Mutant("connected-finish-stays-connected", P, "        self._bodyProtocol.connectionLost(reason)\n        self._bodyProtocol = None\n        self._state = \"FINISHED\"\n",
-           "        self._bodyProtocol.connectionLost(reason)\n        self._bodyProtocol = None\n"),
-    Mutant("finished-handler-accepts", P, "        raise RuntimeError(\"Cannot finish body data after \" \"protocol disconnected\")", "        return None"),
     Mutant("reason-always-done", P,
            "        if reason is None:\n            reason = Failure._withoutTraceback(\n                ResponseDone(\"Response body fully received\")\n            )\n        self._bodyProtocol.connectionLost(reason)",
            "        reason = Failure._withoutTraceback(\n            ResponseDone(\"Response body fully received\")\n        )\n        self._bodyProtocol.connectionLost(reason)"),
-    Mutant("resume-before-flush", P,
-           "        protocol.makeConnection(self._transport)\n        self._bodyProtocol = protocol\n        for data in self._bodyBuffer:",
-           "        protocol.makeConnection(self._transport)\n        self._bodyProtocol = protocol\n        self._transport.resumeProducing()\n        for data in self._bodyBuffer:",
-           more=[(P, "        # being delivered, or even the body completing.\n        self._transport.resumeProducing()\n", "        # being delivered, or even the body completing.\n")]),
     Mutant("buffer-prepend", P, "        self._bodyBuffer.append(data)", "        self._bodyBuffer.insert(0, data)"),
     Mutant("chain-in-both-branches", P,
            "            self._state = \"TRANSMITTING_AFTER_RECEIVING_RESPONSE\"\n            self._responseDeferred.chainDeferred(self._finishedRequest)\n",
@@ -799,6 +1130,15 @@ MUTANTS = [
     Mutant("no-body-codes-drop-304", P, "    NO_BODY_CODES = {NO_CONTENT, NOT_MODIFIED}", "    NO_BODY_CODES = {NO_CONTENT}"),
 ]
 SILENT = [
+    Silent("interim-reset-in-helper", P, "            self.connectionMade()\n            del self.response\n            return\n", "            self._resetForNextResponse()\n            return\n",
+           more=[(P, "    def connectionLost(self, reason: Failure | None = None) -> None:\n        if self.bodyDecoder is not None:",
+                  "    def _resetForNextResponse(self):\n        self.connectionMade()\n        del self.response\n\n    def connectionLost(self, reason: Failure | None = None) -> None:\n        if self.bodyDecoder is not None:")]),
+    Silent("response-done-failure-helper", P, "        if reason is None:\n            reason = Failure._withoutTraceback(\n                ResponseDone(\"Response body fully received\")\n            )\n        self._bodyProtocol.connectionLost(reason)",
+           "        finalReason = reason if reason is not None else self._done()\n        self._bodyProtocol.connectionLost(finalReason)",
+           more=[(P, "    def _bodyDataFinished_DEFERRED_CLOSE(self):", "    def _done(self):\n        return Failure._withoutTraceback(ResponseDone(\"Response body fully received\"))\n\n    def _bodyDataFinished_DEFERRED_CLOSE(self):")]),
+    Silent("identity-no-more-data-with-local", H, "        finishCallback = self.finishCallback\n        self.dataCallback = self.finishCallback = None\n        if self.contentLength is None:\n            finishCallback(b\"\")\n            raise PotentialDataLoss()\n        elif self.contentLength != 0:\n            raise _DataLoss()",
+           "        finishCallback = self.finishCallback\n        remaining = self.contentLength\n        self.dataCallback = self.finishCallback = None\n        if remaining is None:\n            finishCallback(b\"\")\n            raise PotentialDataLoss()\n        if remaining:\n            raise _DataLoss()"),
+    Silent("disconnect-parser-early-return", P, "        if self._parser is not None:\n            parser = self._parser\n            self._parser = None\n", "        parser = self._parser\n        if parser is not None:\n            self._parser = None\n"),
     Silent("request-state-cleared-just-before-parser-callout", P,
            "            self._parser = None\n            self._currentRequest = None\n            self._finishedRequest = None\n            self._responseDeferred = None\n",
            "            self._parser = None\n",
